@@ -691,8 +691,11 @@ def chain_and_seams(ctx):
         for b in ivs:
             for c in ivs + nums:
                 for o1, o2 in (("<", "<"), ("<=", "<="), ("<", "<="), ("<=", "<"), (">=", ">="), (">", ">=")):
-                    if len(chains) < 900:
-                        chains.append((a, o1, b, o2, c))
+                    chains.append((a, o1, b, o2, c))
+    # every number-interval-number chain (the form the language is most likely to grow), an even spread of the rest
+    numfirst = [ch for ch in chains if ch[0] in nums and ch[4] in nums]
+    rest = [ch for ch in chains if not (ch[0] in nums and ch[4] in nums)]
+    chains = numfirst + rest[::max(1, len(rest) // 900)]
     texts = []
     for a, o1, b, o2, c in chains:
         texts += ["%s %s %s %s %s" % (a, o1, b, o2, c), "(%s %s %s) * (%s %s %s)" % (a, o1, b, b, o2, c)]
